@@ -27,7 +27,7 @@ TOL = 1e-8
 
 
 def cases(seed, tier):
-    n = 28 if tier == "quick" else 560
+    n = 28 if tier == "quick" else 400
     out = []
     for k in range(n):
         rng = trees.rng_for(seed, PID, k)
